@@ -267,6 +267,17 @@ func GenComment(t *rapid.T, p *Profile, pools *Pools, allowTags bool) *m.Comment
 			c.Items = append(c.Items, m.CItem{Text: rapid.SampledFrom(texts).Draw(t, "ct")})
 		}
 	}
+	// a tag value runs to the next comma, so it may itself contain the "name:" of a later tag
+	if !p.off("tag.value-names-later-tag") {
+		for i := 0; i < len(c.Items); i++ {
+			for j := i + 1; j < len(c.Items); j++ {
+				if c.Items[i].Tag && c.Items[j].Tag && rapid.IntRange(0, 3).Draw(t, "valnames") == 0 {
+					c.Items[i].Value = rapid.SampledFrom([]string{"see %s:7", "%s://x.org/a", "%s:"}).Draw(t, "valform")
+					c.Items[i].Value = strings.Replace(c.Items[i].Value, "%s", c.Items[j].Name, 1)
+				}
+			}
+		}
+	}
 	return c
 }
 
